@@ -2,7 +2,7 @@ import Propka.Model.Program
 /-! Model of the determinant table and the summary of the `.pka` file (`propka.output.get_determinant_section`,
     `get_summary_section`, `Group.get_determinant_string`, `get_determinant_for_string`, `get_summary_string`) at `Float`,
     with Python's fixed-point formatting (`'{:8.2f}'`: the exact binary value rounded half-to-even to the printed decimals).
-    The star that marks non-covalently coupled groups is left blank (the coupling search is a model of its own). -/
+    The star marks the groups the coupling search (`Model/CoupleSearch.lean`) coupled. -/
 namespace Propka.Output
 open Propka Propka.Program
 
@@ -36,14 +36,14 @@ def detField (ds : List (Dets.Det Float)) (i : Nat) : String :=
   | none => "    0.00 XXX   0 X"
   | some d => Pipe.padL 8 (fmt2 d.value) ++ " " ++ d.label
 
-/-- `Group.get_determinant_string(remove_penalised_group)` without the star -/
+/-- `Group.get_determinant_string(remove_penalised_group)` -/
 def groupBlock (removePen : Bool) (g : AvrGroup Float) : String :=
   if g.ctg.isSome && removePen then "" else
   let n := max 1 (max g.acc.sc.length (max g.acc.bb.length g.acc.cb.length))
   let line (i : Nat) : String :=
     g.label ++
     (if i == 0 then
-      " " ++ Pipe.padL 6 (fmt2 g.acc.pka) ++ " " ++ " " ++ Pipe.padL 4 (toString (truncNat (100.0 * g.buried))) ++ Pipe.padL 2 "%" ++ " " ++
+      " " ++ Pipe.padL 6 (fmt2 g.acc.pka) ++ (if g.starred then "*" else " ") ++ " " ++ Pipe.padL 4 (toString (truncNat (100.0 * g.buried))) ++ Pipe.padL 2 "%" ++ " " ++
       " " ++ Pipe.padL 6 (fmt2 g.acc.evol) ++ " " ++ Pipe.padL 4 (toString (truncNat g.nv)) ++
       " " ++ Pipe.padL 6 (fmt2 g.acc.eloc) ++ " " ++ Pipe.padL 4 "0"
      else Pipe.padL 40 " ") ++
